@@ -545,6 +545,11 @@ func (p *OAuthProxy) Proxy(rw http.ResponseWriter, req *http.Request) {
 	// If the request is explicitly whitelisted, we skip authentication
 	if p.IsWhitelistedRequest(req) {
 		tags = append(tags, "auth_type:whitelisted")
+		// no session stands behind this request: identity headers are the proxy's to assert,
+		// so client-supplied ones must not reach the upstream
+		for _, h := range []string{"X-Forwarded-User", "X-Forwarded-Email", "X-Forwarded-Groups", "X-Forwarded-Access-Token"} {
+			req.Header.Del(h)
+		}
 	} else {
 		tags = append(tags, "auth_type:authenticated")
 		err = p.Authenticate(rw, req)
@@ -741,6 +746,7 @@ func (p *OAuthProxy) Authenticate(rw http.ResponseWriter, req *http.Request) (er
 
 	req.Header.Set("X-Forwarded-User", session.User)
 
+	req.Header.Del("X-Forwarded-Access-Token")
 	if p.upstreamConfig.PassAccessToken && session.AccessToken != "" {
 		req.Header.Set("X-Forwarded-Access-Token", session.AccessToken)
 	}
